@@ -38,11 +38,36 @@ ASSUMPTIONS = [
     'the history saw (assumption: of all earlier queries only the last unfiltered select per class can influence later answers); '
     'probes of this family: unfiltered select first, then four filtered / ordered forms, select_one / select_any, and the '
     'changed-result probes',
+    'ask / change / ask again (first family, every reachable state): on a fresh replay of the state a menu of queries whose first '
+    'operator is an equality filter (every attribute incl. referential and identifying ones, every value read by a live instance '
+    'and one read by none, where_eq and dict, alone and before an ordering; the attribute sets of the declared identifiers; the '
+    'classes carry additional identifiers over their referential attributes) and every one-hop navigation is asked, then ONE change '
+    'is made -- every enabled operation of the state, and every write of N, S and of a non-referential identifying attribute '
+    '(to a fresh value and to the value of another instance) of every live instance -- and the menus of the state before and '
+    'after the change are asked again and compared with the reference; thorough tier: a second change after every attribute '
+    'write. Attribute writes are not operations of the search itself (they would multiply the state space by the value alphabet)',
 ]
 EXTRA = [('N', 'integer'), ('S', 'string')]
 # value choices for the j-th instance created of a class: ties in N, in S, in both and in neither all occur
 VALUE_MENU = [[(0, 'a'), (1, 'b')], [(0, 'a'), (1, 'a')], [(0, 'b'), (0, 'a')], [(1, 'b'), (0, 'a')]]
 QUICK_MENU = [[(0, 'a')], [(1, 'a'), (0, 'a')], [(0, 'b')], [(1, 'b')]]
+
+
+# identifiers over referential attributes (identifiers are reported, not enforced: they change no answer)
+EXTRA_IDENTIFIERS = {
+    'a_1c_1c': [('B', 'I2', ['A_Id'])],
+    'e_reflexive_1c_1c': [('A', 'I2', ['Next_Id'])],
+    'g_assoc_class': [('C', 'I2', ['A_Id', 'B_Id'])],
+    'g2_reflexive_assoc_class': [('C', 'I2', ['One_Id', 'Other_Id'])],
+}
+ABSENT = {'UNIQUE_ID': 77, 'INTEGER': 77, 'STRING': 'zz'}
+
+
+def with_identifiers(schema):
+    for u in EXTRA_IDENTIFIERS.get(schema.name, []):
+        if list(u[:2]) not in [list(x[:2]) for x in schema.uniques]:
+            schema.uniques.append((u[0], u[1], list(u[2])))
+    return schema
 
 
 class QueryModel(c02.CappedModel):
@@ -98,12 +123,18 @@ class QueryModel(c02.CappedModel):
             w.label[inst] = len(w.handles)
             w.handles.append(inst)
             return 'created'
+        if op[0] == 'set':
+            setattr(w.handles[op[1]], op[2], op[3])
+            return 'set'
         return c02.CappedModel.run_impl(self, w, op)
 
     def run_ref(self, w, op):
         if op[0] == 'new' and len(op) > 2:
             w.ref.new(op[1], dict(N=op[2], S=op[3]))
             return 'created'
+        if op[0] == 'set':
+            w.ref.insts[op[1]].values[op[2]] = op[3]
+            return 'set'
         return c02.CappedModel.run_ref(self, w, op)
 
     def canon(self, w):
@@ -287,6 +318,11 @@ class QueryModel(c02.CappedModel):
         return out
 
     def probes(self, ctx, w, hist):
+        self.state_probes(ctx, w, hist)
+        if type(self) is QueryModel:
+            self.requery_probes(ctx, w, hist)
+
+    def state_probes(self, ctx, w, hist):
         import xtuml
         quick = self.tier == 'quick'
         maxops = 2 if quick else 3
@@ -447,6 +483,124 @@ class QueryModel(c02.CappedModel):
                         bad('navigate_subtype', ['navigate_subtype', p, relspell], 'returned %s, not one of %s' % (g, subs), subs, g)
             if xtuml.navigate_subtype(None, 4) is not None:
                 bad('navigate_subtype', ['navigate_subtype', None, 4], 'not None for an empty handle', None, 'x')
+
+    # -- ask, change the model, ask again (round 7: C09-13) --------------------------------------------------------
+    def requery_menu(self, w):
+        '''Queries whose FIRST operator is an equality filter: over every attribute of every class (plain, referential,
+        identifying) for every value a live instance reads and one no instance reads, as where_eq and as dict; over the
+        attribute set of every declared identifier for the values of every live instance; each alone and followed by an
+        ordering.  One-hop navigations from every live instance.'''
+        sel, nav = [], []
+        for kind in self.schema.kinds():
+            pool = list(w.ref.order[kind])
+            for n, ty in self.schema.attrs(kind):
+                vals = []
+                for i in pool:
+                    v = w.ref.attr(i, n)
+                    if v not in vals:
+                        vals.append(v)
+                for k, v in enumerate(vals + [ABSENT.get(ty.upper(), 77)]):
+                    if (k + len(n)) % 2:
+                        sel.append((kind, [['eq', {n: v}]]))
+                    else:
+                        sel.append((kind, [['eqdict', {n.lower(): v}], ['ord', ['S', 'N'], bool(k % 4 >= 2)]]))
+            for uk, _, attrs in self.schema.uniques:
+                if uk != kind or len(attrs) < 2:
+                    continue
+                for i in pool:
+                    sel.append((kind, [['eq', dict((a, w.ref.attr(i, a)) for a in attrs)]]))
+            for x in pool:
+                for (to, rel, ph) in self.schema.nav_menu(kind):
+                    nav.append((x, to, rel, ph))
+        return sel, nav
+
+    def requery_changes(self, w):
+        '''The enabled operations of the state plus attribute writes: N, S and every identifying attribute that is not
+        referential, of every live instance, to another value (for identifiers: a fresh value and the value of another
+        live instance of the class).'''
+        ops = [op for op in self.enabled(w) if op[0] != 'new' or len(op) > 2]
+        for kind in self.schema.kinds():
+            refs = self.schema.referentials(kind)
+            pool = list(w.ref.order[kind])
+            for x in pool:
+                ops.append(['set', x, 'N', 1 - (w.ref.attr(x, 'N') or 0)])
+                ops.append(['set', x, 'S', 'a' if w.ref.attr(x, 'S') == 'b' else 'b'])
+                for n, ty in self.schema.attrs(kind):
+                    if ty.upper() != 'UNIQUE_ID' or n in refs or n in ('N', 'S'):
+                        continue
+                    ops.append(['set', x, n, 99])
+                    for y in pool:
+                        if y != x and w.ref.attr(y, n) != w.ref.attr(x, n):
+                            ops.append(['set', x, n, w.ref.attr(y, n)])
+                            break
+        return ops
+
+    def requery_ask(self, ctx, w, menu, hist, steps, check):
+        import xtuml
+        sel, nav = menu
+        lab = w.label
+        for kind, seq in sel:
+            ctx.count('requery_queries')
+            exp = self.ref_apply(w, list(w.ref.order[kind]), seq)
+            q = ['select_many', kind, seq]
+            try:
+                got = [lab.get(i, '?') for i in w.m.select_many(kind, *self.real_ops(seq))]
+                one = w.m.select_any(kind, *self.real_ops(seq))
+                one = None if one is None else lab.get(one, '?')
+            except Exception as e:
+                got, one = 'raised ' + type(e).__name__, None
+            if check and (got != exp or one != (exp[0] if exp else None)):
+                ctx.violation('c09:requery:select', dict(self.case(hist, None), op=['probe', ['requery', steps, q]]),
+                              'schema %s, state %s: the queries of the state were asked, then %s; afterwards %s returned %s '
+                              '(select_any: %s), expected %s' % (self.schema.name, hist, steps, q, got, one, exp), exp, got)
+                return False
+        for x, to, rel, ph in nav:
+            if not w.ref.insts[x].alive:
+                continue
+            ctx.count('requery_queries')
+            exp = list(w.ref.navigate(x, to, rel, ph))
+            q = ['navigate_many', x, to, rel, ph]
+            try:
+                got = [lab.get(i, '?') for i in xtuml.navigate_many(w.handles[x]).nav(to, rel, ph)()]
+            except Exception as e:
+                got = 'raised ' + type(e).__name__
+            if check and got != exp:
+                ctx.violation('c09:requery:navigate', dict(self.case(hist, None), op=['probe', ['requery', steps, q]]),
+                              'schema %s, state %s: the queries of the state were asked, then %s; afterwards %s returned %s, '
+                              'expected %s' % (self.schema.name, hist, steps, q, got, exp), exp, got)
+                return False
+        return True
+
+    def requery_run(self, ctx, hist, steps):
+        '''Fresh world: ask the menu of the state (answers discarded: the probes of the state judge them), apply *steps*,
+        and after each step ask the menu of the state before it and the menu of the state reached; all compared.'''
+        w = self.build(hist)
+        before = self.requery_menu(w)
+        self.requery_ask(ctx, w, before, hist, [], False)
+        done = []
+        for op in steps:
+            got, exp = self.run_impl(w, op), self.run_ref(w, op)
+            if got != exp or got.endswith('Exception'):
+                return None          # outcomes of operations are the first family's (and C02's) subject
+            done.append(op)
+            after = self.requery_menu(w)
+            menu = (before[0] + [q for q in after[0] if q not in before[0]], before[1] + [q for q in after[1] if q not in before[1]])
+            ctx.count('requery_rounds')
+            if op[0] == 'set':
+                ctx.count('requery_rounds_after_attribute_write')
+            if not self.requery_ask(ctx, w, menu, hist, done, True):
+                return False
+            before = after
+        return w
+
+    def requery_probes(self, ctx, w, hist):
+        for op in self.requery_changes(w):
+            r = self.requery_run(ctx, hist, [op])
+            if r and self.tier != 'quick' and op[0] == 'set':
+                # thorough: every second change after an attribute write
+                for op2 in self.requery_changes(r):
+                    if op2[0] != 'new':
+                        self.requery_run(ctx, hist, [op, op2])
 
     def mutation_probes(self, ctx, w, kind, pool, bad, labels):
         '''A returned set belongs to the caller: after adding / removing elements of a result in place, the same query
@@ -725,7 +879,7 @@ def models(ctx):
     out = []
     for schema in schemas.shapes(EXTRA):
         caps = CAPS[schema.name][0 if ctx.quick else 1]
-        out.append(QueryModel(schema, caps, seeds_for(schema), ctx.tier))
+        out.append(QueryModel(with_identifiers(schema), caps, seeds_for(schema), ctx.tier))
     return out
 
 
@@ -750,6 +904,9 @@ def run(ctx):
     ctx.require(ctx.n('extent_states_pool_changed_same_size') >= 20,
                 'select-in-history family: too few states whose pool changed, at equal size, since the last select of the history (%d)'
                 % ctx.n('extent_states_pool_changed_same_size'))
+    ctx.require(ctx.n('requery_rounds_after_attribute_write') >= 1000 and ctx.n('requery_rounds') >= 2000,
+                'too few ask / change / ask again rounds (%d, %d after an attribute write)'
+                % (ctx.n('requery_rounds'), ctx.n('requery_rounds_after_attribute_write')))
     ctx.require(ctx.n('mutation_probes') >= 1000, 'too few re-queries after changing a returned set (%d)' % ctx.n('mutation_probes'))
     ctx.require(ctx.n('queries') >= 10000 and ctx.n('navigations') >= 10000, 'too few queries evaluated')
     ctx.require(ctx.n('mixed_navigations_returning_several') >= 1000,
@@ -760,7 +917,7 @@ def run(ctx):
 
 
 def replay(ctx, case):
-    schema = schemas.by_name(case['schema'], EXTRA)
+    schema = with_identifiers(schemas.by_name(case['schema'], EXTRA))
     cls = ExtentModel if case.get('family') == 'extent' else QueryModel
     m = cls(schema, case['caps'], seeds_for(schema), case.get('tier', 'quick'))
     explorer.replay_case(ctx, m, case['hist'], case.get('op'))
@@ -771,14 +928,16 @@ def coverage(ctx):
     return dict(
         states=ctx.n('states'),
         transitions=ctx.n('transitions'),
-        traces_validated_against_impl=ctx.n('queries') + ctx.n('navigations'),
-        evaluations=ctx.n('queries') + ctx.n('navigations'),
+        traces_validated_against_impl=ctx.n('queries') + ctx.n('navigations') + ctx.n('requery_queries'),
+        evaluations=ctx.n('queries') + ctx.n('navigations') + ctx.n('requery_queries'),
         queries=ctx.n('queries'), navigations=ctx.n('navigations'),
         mixed_navigations=ctx.n('mixed_navigations'), mixed_navigations_returning_several=ctx.n('mixed_navigations_returning_several'),
         identifier_filters=ctx.n('identifier_filters'), identifier_filters_matching_several=ctx.n('identifier_filters_matching_several'),
         distinct_nontrivial=ctx.nd('nontrivial'),
         distinct_outcomes=ctx.nd('outcomes'),
         requeries_after_changing_a_returned_set=ctx.n('mutation_probes'),
+        ask_change_ask_again=dict(rounds=ctx.n('requery_rounds'), rounds_after_an_attribute_write=ctx.n('requery_rounds_after_attribute_write'),
+                                  queries=ctx.n('requery_queries')),
         select_in_history=dict(select_operations=ctx.n('extent_select_operations'), queries=ctx.n('extent_queries'),
                                states_probed_after_a_select=ctx.n('extent_states_selected_before'),
                                states_pool_changed_since_select=ctx.n('extent_states_pool_changed_since_select'),
